@@ -4,6 +4,7 @@ package main
 import (
 	"verifharness/sim"
 
+	_ "verifharness/sims/calls"
 	_ "verifharness/sims/wasifs"
 )
 
